@@ -113,6 +113,11 @@ func (c *Client) handshake(ctx context.Context) error {
 
 	if err := wg.Wait(); err != nil {
 		if ctxErr := ctx.Err(); ctxErr != nil {
+			// The watchdog may have observed the end of the handshake
+			// goroutine before the parent context and left the connection
+			// open; an aborted handshake always closes it.
+			_ = c.conn.Close()
+
 			// Parent context is canceled, propagating error to allow error
 			// traversal, like errors.Is(err, context.Canceled) assertion.
 			return errors.Wrap(multierr.Append(err, ctxErr), "parent context done")
